@@ -423,7 +423,7 @@ pub fn strategy(g: &GenCfg) -> BoxedStrategy<Case> {
             if let Some(c) = canc {
                 actors.push(c);
             }
-            Case { fam: "condvar".into(), workers, pool, feat, cfg: vec![0], actors, sched }
+            Case { fam: "condvar".into(), workers, pool, feat, cfg: vec![0], actors, sched, weak: 0 }
         });
     // barrier
     let g4 = g2.clone();
@@ -442,7 +442,7 @@ pub fn strategy(g: &GenCfg) -> BoxedStrategy<Case> {
                 }
                 actors.push(Actor { ctx: *ctx, role: 0, ops });
             }
-            Case { fam: "condvar".into(), workers, pool, feat, cfg: vec![1, gens], actors, sched }
+            Case { fam: "condvar".into(), workers, pool, feat, cfg: vec![1, gens], actors, sched, weak: 0 }
         });
     // wait group
     let g5 = g2.clone();
@@ -454,7 +454,7 @@ pub fn strategy(g: &GenCfg) -> BoxedStrategy<Case> {
     });
     let wg = (proptest::collection::vec(holder, 0..=4), proptest::collection::vec(waiter2, 1..=2), gen::config(&g5), gen::schedule(&g5, false)).prop_map(|(mut actors, ws, (workers, pool, feat), sched)| {
         actors.extend(ws);
-        Case { fam: "condvar".into(), workers, pool, feat, cfg: vec![2], actors, sched }
+        Case { fam: "condvar".into(), workers, pool, feat, cfg: vec![2], actors, sched, weak: 0 }
     });
     prop_oneof![5 => ticket, 2 => barrier, 2 => wg].boxed()
 }
